@@ -101,8 +101,12 @@ inductive Ret
   | dump (m : Option (Dict (Dict Int)))
   deriving DecidableEq, Repr
 
-/-- `str.strip()` (ASCII white space) -/
-def strip (s : String) : String := s.trimAscii.toString
+def isWs (c : Char) : Bool :=
+  c == ' ' || c == '\t' || c == '\n' || c == '\r' || c == '\x0b' || c == '\x0c'
+
+/-- `str.strip()` (ASCII white space; written on character lists so that the kernel can evaluate it) -/
+def strip (s : String) : String :=
+  String.ofList (((s.toList.dropWhile isWs).reverse.dropWhile isWs).reverse)
 
 /-! ### the private helpers -/
 
